@@ -1372,7 +1372,7 @@ func opSources(o *OpRecord) []string {
 		switch o.Op.Tpl {
 		case tplWorld, tplSetAccountMeta, tplRaw, tplArith, tplPortionVar, tplMetaVar, tplAssetVar:
 			return nil
-		case tplOrdered, tplMax, tplOrderedVars, tplFallbackOverdraft:
+		case tplOrdered, tplMax, tplOrderedVars, tplFallbackOverdraft, tplMaxVars:
 			return []string{acctName(o.Op.Src), acctName(o.Op.Src2)}
 		case tplBalance:
 			return []string{acctName(o.Op.Src2)}
